@@ -187,3 +187,15 @@ OBLIGATIONS = [
                 "thorough": "3 registers on up to 4 layers; every sequence of 3 calls, batch length 0..2"},
         assumptions=_ASSUME),
 ]
+
+MANIFEST = {
+    "level": "model_checking",
+    "text": "Bounded exhaustive symbolic execution (CrossHair/z3) of the real Composite_Hardware.read/read_batch/write/write_batch over fake in-memory layers: "
+            "every assignment of the registers to up to four layers, every batch order including duplicates, symbolic (32-bit) memory contents and written values; "
+            "after each call the returned lists and all layer memories are compared with a twin driven register by register on the owning layer. "
+            "One call from an arbitrary memory (induction step, the composite is stateless) plus all short call sequences.",
+    "note": "Quick: batches of length 0..2 over 4 registers and 3..4 over 3 registers, 2-call sequences over 2 registers; thorough: batch length 0..5 over 4 registers, "
+            "3-call sequences over 3 registers. Layer index and batch positions are solver selectors (one path each), values stay symbolic (one path stands for all values). "
+            "Not compared: the order in which different layers are visited and the intermediate value of a register written twice inside one batch. Trusted: CrossHair int model, z3, the fake layers.",
+    "technique": "symbolic execution of the real code (CrossHair + z3), bounded exhaustive path exploration against a per-register twin, counterexample replay",
+}
